@@ -45,6 +45,10 @@ DATAGRAMS = [
     b'{"SECoP": "discover"', b'{"SECoP": ["discover"]}', b'{"SECoP": {"discover": 1}}', b'{"SECoP": null}',
     b'NaN', b'[[[[[[[[[[[[[[[[[[[[', b'{"SECoP": "discover"}' + b' ' * 1100, b'{"a": "' + b'x' * 1100 + b'"}',
     b'\x00\x00', b'{"SECoP": "discover"}\n', b'{"SECoP": "discover"}{"SECoP": "discover"}',
+    # between the budget of an answer (508) and the receive size (1024): a valid request, and garbage which starts
+    # with a request padded up to byte 508
+    b'{"SECoP":"discover","pad":"' + b'x' * 600 + b'"}', b'{"SECoP": "discover"}' + b' ' * 487 + b'garbage' * 20,
+    b'{"SECoP":"discover","pad":"' + b'y' * 480 + b'"}',
     # the text of a request in other encodings (SECoP is UTF-8: these are no discovery requests)
     '{"SECoP": "discover"}'.encode('utf-16'), '{"SECoP": "discover"}'.encode('utf-32'),
     b'\xfe\xff' + '{"SECoP": "discover"}'.encode('utf-16-be'), '{"SECoP": "discover"}'.encode('utf-16-le'),
